@@ -370,7 +370,20 @@ def evaluate_definition(d, seed, others):
     from sievelib import commands as slc
     rng = random.Random(seed)
     cls = build_class(d)
-    slc.add_commands(cls)
+    # the documented ways of registering: one class, a list of classes (classes whose name
+    # does not end in "Command" - a shared helper or mixin - are skipped, wherever they stand)
+    helper = type("SharedHelper", (object,), {})
+    form = seed % 5
+    if form == 0:
+        slc.add_commands(cls)
+    elif form == 1:
+        slc.add_commands([cls])
+    elif form == 2:
+        slc.add_commands([helper, cls])
+    elif form == 3:
+        slc.add_commands((cls, helper))
+    else:
+        slc.add_commands(iter([helper, cls, helper]))
     spec = dict(rsieve.SPEC)
     spec[d["name"]] = spec_entry(d)
     out = {"counts": {}, "viols": [], "sample": None}
